@@ -209,6 +209,8 @@ where
     fn drop(&mut self) {
         if !self.committed {
             // Revert: Remove our intent from pending_intents
+            #[cfg(feature = "verif")]
+            crate::verif::point("guard_drop.lock_I");
             let mut intents = self.index.pending_intents.lock();
 
             if let Some(current_hash) = intents.get(&self.key)
@@ -269,7 +271,11 @@ where
     pub fn checkpoint(&self, reason: CheckpointReason) -> Result<(), IndexError> {
         tracing::info!(?reason, "Starting checkpoint operation.");
 
+        #[cfg(feature = "verif")]
+        crate::verif::point("ckpt.lock_S");
         let mut snapshot = self.state.write();
+        #[cfg(feature = "verif")]
+        crate::verif::point("ckpt.lock_W");
         let mut wal_guard = self.wal.lock();
 
         self.checkpoint_inner(reason, &mut wal_guard, &mut *snapshot)
@@ -280,6 +286,8 @@ where
         key: K,
         meta: IntentMeta,
     ) -> Result<IntentGuard<'_, K>, IndexError> {
+        #[cfg(feature = "verif")]
+        crate::verif::point("intent.lock_I");
         let mut intents = self.pending_intents.lock();
 
         // Check if there was a previous intent for this key
@@ -306,16 +314,24 @@ where
         delete_fn: &crate::types::DeleteBlobCallFn,
     ) -> Result<(), IndexError> {
         let logical_op = WalOp::Put { key: key.clone(), hash, size };
+        #[cfg(feature = "verif")]
+        crate::verif::point("put.lock_I");
         let mut intents = self.pending_intents.lock();
 
         let (mut unreferenced_from_op, rolled_over) = {
+            #[cfg(feature = "verif")]
+            crate::verif::point("put.lock_S");
             let mut state = self.state.write();
+            #[cfg(feature = "verif")]
+            crate::verif::point("put.lock_W");
             let mut wal = self.wal.lock();
             let (hashes, _append_info, rolled) =
                 Self::apply_wal_op_unsafe(&mut state, &mut wal, &logical_op)?;
             (hashes, rolled)
         };
 
+        #[cfg(feature = "verif")]
+        crate::verif::point("put.applied");
         intents.remove(&key);
 
         // Filter out any unreferenced hashes that are still referenced by other intents
@@ -328,9 +344,15 @@ where
         }
 
         drop(intents);
+        #[cfg(feature = "verif")]
+        crate::verif::point("put.released_I");
 
         if rolled_over {
+            #[cfg(feature = "verif")]
+            crate::verif::point("put.ckpt.lock_S");
             let mut state = self.state.write();
+            #[cfg(feature = "verif")]
+            crate::verif::point("put.ckpt.lock_W");
             let mut wal = self.wal.lock();
             self.checkpoint_inner(CheckpointReason::SegmentRollover, &mut wal, &mut state)?;
         }
@@ -344,16 +366,24 @@ where
         delete_fn: &crate::types::DeleteBlobCallFn,
     ) -> Result<(), IndexError> {
         let logical_op = WalOp::Remove { keys };
+        #[cfg(feature = "verif")]
+        crate::verif::point("rm.lock_I");
         let intents = self.pending_intents.lock();
 
         let (mut unreferenced_from_op, rolled_over) = {
+            #[cfg(feature = "verif")]
+            crate::verif::point("rm.lock_S");
             let mut state = self.state.write();
+            #[cfg(feature = "verif")]
+            crate::verif::point("rm.lock_W");
             let mut wal = self.wal.lock();
             let (hashes, _append_info, rolled) =
                 Self::apply_wal_op_unsafe(&mut state, &mut wal, &logical_op)?;
             (hashes, rolled)
         };
 
+        #[cfg(feature = "verif")]
+        crate::verif::point("rm.applied");
         // Remove any unreferenced hashes that are still referenced by intents
         unreferenced_from_op
             .retain(|hash| !intents.values().any(|intent_hash| intent_hash == hash));
@@ -364,9 +394,15 @@ where
         }
 
         drop(intents);
+        #[cfg(feature = "verif")]
+        crate::verif::point("rm.released_I");
 
         if rolled_over {
+            #[cfg(feature = "verif")]
+            crate::verif::point("rm.ckpt.lock_S");
             let mut state = self.state.write();
+            #[cfg(feature = "verif")]
+            crate::verif::point("rm.ckpt.lock_W");
             let mut wal = self.wal.lock();
             self.checkpoint_inner(CheckpointReason::SegmentRollover, &mut wal, &mut state)?;
         }
@@ -440,6 +476,8 @@ where
 
 impl<K> Index<K> {
     pub fn read_state(&self) -> IndexReadGuard<'_, K> {
+        #[cfg(feature = "verif")]
+        crate::verif::point("read.lock_S");
         IndexReadGuard { inner: self.state.read() }
     }
 }
